@@ -16,6 +16,7 @@ mod c12;
 mod c13;
 mod c15;
 mod c17;
+mod c18;
 mod c19;
 mod c20;
 mod util;
@@ -52,6 +53,7 @@ fn main() {
         "C13" => c13::replay(&cases, &mut rep),
         "C15" => c15::replay(&cases, &mut rep),
         "C17" => c17::replay(&cases, &mut rep),
+        "C18" => c18::replay(&cases, &mut rep),
         "C19" => c19::replay(&cases, &mut rep),
         "C20" => c20::replay(&cases, &mut rep),
         p => tool_error(&format!("no replay driver for {p}")),
